@@ -62,7 +62,8 @@ def ifgen(rng, w, depth, conds, g):
 def same_op_arms(rng, w, conds, g):
     """If(cond, t, f) whose arms have the same operator and arity and differ in one, two or all arguments -
     the shapes burrow_ite's argument matching decides on (regression family for the fixed finding
-    burrow-ite-one-match-not-one-difference: flattened three-operand nodes, extraction bounds)."""
+    burrow-ite-one-match-not-one-difference: flattened three-operand nodes, extraction bounds, extraction of
+    operands of different widths)."""
     c = rng.choice(conds)
     k = rng.randrange(4)
     if k == 0:
@@ -72,9 +73,9 @@ def same_op_arms(rng, w, conds, g):
         t, f = ["extract", lo1 + w - 1, lo1, x], ["extract", lo2 + w - 1, lo2, x]
     elif k == 1:
         # zero/sign extension by different amounts of operands of different widths, then cut back
-        x = g.bv(w, 1)
-        o = rng.choice(["zext", "sext"])
-        t, f = ["extract", w - 1, 0, [o, 1, x]], ["extract", w - 1, 0, [o, 2, x]]
+        # same bounds, operands of different widths: the arms differ in one argument but no If can choose between them
+        lo = rng.choice([0, 1])
+        t, f = ["extract", w - 1 + lo, lo, g.bv(w + 1, 2)], ["extract", w - 1 + lo, lo, g.bv(w + rng.choice([2, 3]), 2)]
     else:
         # flattened n-ary nodes a o b o d  vs  a o b' o d' with one, two or three differing operands
         o = rng.choice(["add", "xor", "and", "or", "mul"])
